@@ -324,6 +324,11 @@ int read_pax_header(sqfs_istream_t *fp, sqfs_u64 entsize,
 			}
 
 			*set_by_pax |= field->flag;
+
+			/* the map handler replaces the list that
+			   sparse_last points into */
+			if (!strcmp(key, "GNU.sparse.map"))
+				sparse_last = NULL;
 		} else if (!strcmp(key, "GNU.sparse.offset")) {
 			if (parse_uint(value, -1, &diff, 0, 0, &offset))
 				goto fail_malformed;
